@@ -174,3 +174,14 @@ def run(ctx, res):
         status, bas = B.lst2bas(ctx, text)
         st.see(text, nontrivial=size > 0)
         B.check_program(res, "structure", st, {"lines": size}, text, status, bas, {"structure"})
+
+
+def fuzz_oracle(ctx, res, data):
+    """the property's oracles on an input found by the coverage-guided search (tools/fuzz_diff.py, target tokenize)"""
+    text = "".join(chr(b & 0x7F) for b in data)
+    if "\x00" in text:
+        return
+    st = res.stream("fuzz_tokenize")
+    status, bas = B.lst2bas(ctx, text)
+    B.check_program(res, "fuzz_tokenize", st, {"text": text}, text, status, bas, {"structure", "reference"})
+
